@@ -308,6 +308,8 @@ def hist_shape(h, depth=0) -> str:
         return f"{k}({hist_shape(h[1])},{hist_shape(h[2])})"
     if k == "xfer":
         return f"xfer>{h[2]}({hist_shape(h[1])})"
+    if k == "mark":
+        return f"mark({hist_shape(h[1])})"
     return f"{k}({hist_shape(h[1])})"
 
 
